@@ -780,3 +780,44 @@ pub fn real_files(big: bool) -> &'static Vec<RealFile> {
         SMALL.get_or_init(|| load(&["example.hpo", "example_v1.hpo", "example_v2.hpo"]))
     }
 }
+
+/// A shallow forest with `n` terms and sparse ids (for the 65 536-term threshold of index types)
+pub fn many_terms_facts(r: &mut Prng, n: usize, with_std_roots: bool) -> FactSet {
+    let mut facts = FactSet::default();
+    let mut ids: BTreeSet<u32> = BTreeSet::new();
+    if with_std_roots {
+        ids.insert(1);
+        ids.insert(118);
+    }
+    while ids.len() < n {
+        ids.insert(r.range(2, 9_999_999) as u32);
+    }
+    let v: Vec<u32> = ids.iter().copied().collect();
+    for (k, id) in v.iter().enumerate() {
+        facts.terms.push(TermFact { id: *id, name: format!("t{id}"), obsolete: false, replacement: None });
+        if with_std_roots {
+            // 1 <- 118 <- five categories <- every 7th term <- the six terms after it
+            // (few categories: HpoTerm::categories() costs terms x categories group unions)
+            let cats: Vec<u32> = v.iter().copied().filter(|x| *x != 1 && *x != 118).take(5).collect();
+            if *id == 118 {
+                facts.isa.push((118, 1));
+            } else if cats.contains(id) {
+                facts.isa.push((*id, 118));
+            } else if *id != 1 {
+                if k % 7 == 0 {
+                    facts.isa.push((*id, cats[k % cats.len()]));
+                } else {
+                    let p = v[k - k % 7];
+                    facts.isa.push((*id, if p == 1 || p == 118 || cats.contains(&p) { cats[k % cats.len()] } else { p }));
+                }
+            }
+        } else if k % 7 != 0 {
+            facts.isa.push((*id, v[k - k % 7]));
+        }
+    }
+    for j in 0..5u32 {
+        facts.omim.push(Rec { id: j + 1, name: format!("disease {j}"), terms: vec![v[(j as usize * 1000) % v.len()]] });
+    }
+    facts.normalise();
+    facts
+}
